@@ -51,7 +51,14 @@ CHECKS['C14'] = dict(level='model_checking', ref='DESIGN.md 6 (C14)',
    text='TimeoutClean / RetryWaits / ShardedNeverRaises / LockFreeLookupsUnaffected clauses of the TLA+ monitor: a call may end in Timeout only after a failed attempt to obtain the lock, without retry requested, having committed nothing and leaving no value file (quiescent agreement); bulk removals report their count; sharded caches report through False/None/default. '
         'An independent raw SQLite connection holds the write lock under scheduler control (before the call, between the value-file write and BEGIN, released after 0/1/3 failed attempts) for every public data operation of Cache and FanoutCache, retry on/off, operator forms, settings that turn reads into writes; all schedules up to 2 preemptions are validated by TLC.',
    technique='TLA+ monitor evaluated by TLC on scheduler-enumerated executions with a scheduled lock-holder')
-NOTES = {'C14': CONC_NOTE, 'C07': 'Trusted: SQLite atomic commit / WAL recovery and release of the write lock on process death; kill points are the boundary events of the victim (before each statement, file create/write/close/remove, directory create/remove); the lazy cull of writes is switched off in kill workloads (not observable per call). Deque/Index workloads are killed in C11/C12.', 'C08': CONC_NOTE + ' Faults are not injected into COMMIT/ROLLBACK (SQLite atomic commit trusted) nor into file removal (removing an existing file is assumed to succeed).', 'C05': CONC_NOTE, 'C06': CONC_NOTE, 'C03': SEQ_NOTE, 'C04': SEQ_NOTE, 'C09': SEQ_NOTE, 'C10': SEQ_NOTE}
+CHECKS['C11'] = dict(level='model_checking', ref='DESIGN.md 3.3, 6 (C11)',
+   text='DequeOps.tla is collections.deque as pure operators; DequeSeq.tla runs it in lock step with the cache operations as diskcache.Deque composes them (push+trim, pull, walk of sorted keys, rotate as pop/append steps, reverse as copy-clear-extend) and TLC checks the refinement Abs(cache)=deque and equal results for every operation over values {1,2}, maxlen {None,0,1,2}, <=3 items. '
+        'Random histories (all methods, all index values, maxlen None/0/1/small, reopen/copy/pickle/maxlen assignment, via Deque / FanoutCache.deque / DjangoCache.deque) are validated by TLC against DequeOps; the same plans run through collections.deque itself validate the spec against the stdlib; producer/consumer programs are scheduler-enumerated and validated at each COMMIT.',
+   technique='TLA+ refinement (composed cache ops -> pure deque) checked by TLC; trace validation incl. stdlib cross-check and scheduled concurrency')
+CHECKS['C12'] = dict(level='exploration', ref='DESIGN.md 3.3, 6 (C12)',
+   text='IndexOps.tla is an insertion-ordered dictionary as pure operators. Random histories over native and composite keys, inline and file values, all mapping methods, views in both directions, ordered/unordered equality, reopen/pickle (via Index / FanoutCache.index / DjangoCache.index) are validated by TLC against it, and the same plans through OrderedDict validate the spec; 2-3 client programs (lookup, replace inline<->file, setdefault, popitem, pop, delete) are scheduler-enumerated and validated at each COMMIT (PresentKeyAlwaysFound with the listed known finding).',
+   technique='trace validation by TLC against a TLA+ ordered-dictionary spec (sequential, stdlib cross-check, scheduled concurrency)')
+NOTES = {'C11': CONC_NOTE, 'C12': CONC_NOTE + ' No exhaustive TLC exploration of the Index composition yet (level exploration).', 'C14': CONC_NOTE, 'C07': 'Trusted: SQLite atomic commit / WAL recovery and release of the write lock on process death; kill points are the boundary events of the victim (before each statement, file create/write/close/remove, directory create/remove); the lazy cull of writes is switched off in kill workloads (not observable per call). Deque/Index workloads are killed in C11/C12.', 'C08': CONC_NOTE + ' Faults are not injected into COMMIT/ROLLBACK (SQLite atomic commit trusted) nor into file removal (removing an existing file is assumed to succeed).', 'C05': CONC_NOTE, 'C06': CONC_NOTE, 'C03': SEQ_NOTE, 'C04': SEQ_NOTE, 'C09': SEQ_NOTE, 'C10': SEQ_NOTE}
 
 checks = []
 for pid, c in sorted(CHECKS.items()):
